@@ -21,6 +21,22 @@ checks = {
    technique="explicit-state breadth-first search over Put/Del histories on the real back-ends with a sorted-map reference model; full read battery after every transition",
    text="Breadth-first search over all Put/Del histories (depth 5 quick / 7 thorough; rounds {0,1,2,3,5} with a permanent hole, two values per round) on real trimmed bolt, untrimmed bolt and the in-memory ring, each in chained and unchained context, de-duplicated on the reference map (the trimmed-bolt space closes at 78 states); after every transition Get of every round, Last, Len, a full cursor scan, cursor Last and Seek of every round followed by Next are compared with a sorted reference map that encodes only the documented differences. A second family starts from the ring at capacity, a third interleaves one write between the calls of one ring cursor scan.",
    note="State key = reference map (sound because each back-end's behaviour is a function of its key/value content; reads are nevertheless checked after every transition). PostgreSQL back-end not reachable offline. Reference model lives in harness/cmd/c18/main.go."),
+ "C01": dict(engine=E1, category="model_checking", design="3/C01",
+   technique="stateless model checking (delay-bounded schedule enumeration) of the real handler V against an adversary enumerating forged/valid partial sequences, and of networks of real handlers per scheme; independent reference verifier on every database write",
+   text="c01-agg: the real beacon.Handler V (ticker, run loop, aggregator, cache, store stack) runs under the controlled scheduler while an adversary playing the other members delivers every sequence (length <=2 quick / <=3 thorough) over an alphabet of valid and forged partials for rounds 1-2 (wrong key, wrong round label, other previous signature, replay of V's own, truncations, bit flips in index and body, indices outside the group, duplicates); all schedules within the deviation bound. c01-net: networks of three real handlers for each of the 5 schemes. Every beacon that reaches a node's database is judged by a reference verifier that computes the digest from the scheme's specification and calls kyber directly, and (chained) must link to the stored previous beacon.",
+   note="Serving paths (gRPC/HTTP responses) are exercised by the daemon-bench checks, not here. Threshold BLS is memoised as a pure function. Scheduling points: instrumented concurrency operations of internal/chain/beacon, internal/chain/memdb, crypto/vault."),
+ "C02": dict(engine=E1, category="model_checking", design="3/C02",
+   technique="stateless model checking: interleavings of the aggregation and sync writers (plus refused writes and an injected database failure) on the real store stack; networks of real handlers with partitions, restarts and message drops",
+   text="c02-store: aggregation writer, sync writer and an adversarial writer race on the real callback/append/scheme store stack over memdb, trimmed and untrimmed bolt (chained and unchained), with one database write failure as an explorer choice, the ring at capacity and a restart step; a monitor under the stack sees every database write: writes are head+1 each, never repeated, linked; every Put's answer matches what was written. c02-net: networks of 3 real handlers with scripted partitions / stop+restart / link cuts, per-partial drop choices and a node that starts two rounds behind so that sync and aggregation race on its store: per-node write logs, cross-node agreement per round, final stores gap-free and linked, all within the completed deviation bound.",
+   note="Placeholder signatures in c02-store (the stack never verifies); real threshold BLS in c02-net. bbolt atomic on pre-grown files."),
+ "C03": dict(engine=E1, category="model_checking", design="3/C03",
+   technique="stateless model checking of the real handler V against enumerated contributor subsets, arrival orders and adversarial insertions; ledger + reference verifier oracle",
+   text="For each (n,t) (quick: (3,2),(4,3),(5,3) and two groups with holes in their share indices; thorough up to (7,4), all schemes), every number of honest contributors t-2..t (so t-1, t, t+1 with V's own), every arrival order, and every single adversarial insertion at every position (invalid signature under an honest index, duplicate, valid for another round, relabelled round, other previous signature, V's own partial echoed, garbage at a non-member index, and partials that lie ON the group polynomial at every share index nobody holds), all schedules within the deviation bound of the real handler V. Oracle: at the moment of each database write of (r, prev) the delivery ledger plus the signing hook must show >= t distinct member indices with a reference-valid partial for exactly (r, prev).",
+   note="Sync is unavailable to V in these runs so that every stored beacon comes from aggregation. The live-group clause across resharing is covered with C07's harness."),
+ "C04": dict(engine=E1, category="model_checking", design="3/C04",
+   technique="stateless model checking of networks of real handlers with per-node clock offsets and early-timer deviations; monitors on every released partial and every database write",
+   text="Networks of 3-5 real handlers where up to t-1 members run fast by up to a period minus one second; timers may fire early relative to parked goroutines (a stall), nodes start level / behind their clock, one node is stopped and restarted or partitioned; plus the V+adversary harness where t-1 members send partials for the current, next and later rounds at every moment. All schedules within the deviation bound. Oracles: every partial an honest node releases carries a round whose time has come on that node's clock; partials more than one round ahead of the receiver's clock are refused; with fewer than t fast members no honest node stores a round before its time.",
+   note="A partial that is created early but never leaves the node (seen once, on a stopping node reading its closed tick channel) is reported in the outcome, not as a violation: the property speaks of release. Stall = early timer deviation; clock skew = constant offset."),
 }
 
 na_default = "check not built yet in this session (work in progress; see DESIGN.md section 3 for the planned model-checking design)"
